@@ -303,6 +303,18 @@ let () =
          Printf.printf "%s e2e ok\n" id;
          dump_tables ());
       loop ()
+    | Some "W" ->
+      (* W tag nstates nsyms cells... : Draw.draw_nodes / draw_edges on a dense matrix (the items of the nodes are not printed) *)
+      let tag = (match next () with Some s -> s | None -> failwith "tag") in
+      let rows = next_int () in let cols = next_int () in
+      let m = read_n rows (fun () -> read_n cols (fun () -> z_of_int (next_int ()))) in
+      let aut = List.init rows (fun _ -> { items = []; gotos = [] }) in
+      let edges = draw_edges aut m in
+      Printf.printf "W %s E %s\n" tag (String.concat " " (List.map (fun ((q, a), q') -> Printf.sprintf "%d:%d:%d" (int_of_nat q) (int_of_nat a) (int_of_nat q')) edges));
+      List.iter (fun nd ->
+        Printf.printf "W %s N %d %d %s\n" tag (int_of_nat nd.gn_state) (if nd.gn_accept then 1 else 0)
+          (String.concat " " (List.map (fun (a, r) -> Printf.sprintf "%d:%d" (int_of_nat a) (int_of_nat r)) nd.gn_look))) (draw_nodes aut m);
+      loop ()
     | Some "M" ->
       (* M tag rows cols cells... : pack a matrix, print unpack(pack) and the lookups *)
       let tag = (match next () with Some s -> s | None -> failwith "tag") in
